@@ -65,7 +65,10 @@ type shortHeaderPacket struct {
 	KeyPhase        protocol.KeyPhaseBit
 }
 
-func (p *shortHeaderPacket) IsAckEliciting() bool { return ackhandler.HasAckElicitingFrames(p.Frames) }
+// IsAckEliciting reports whether the packet is ack-eliciting. STREAM frames are kept in a list of their own.
+func (p *shortHeaderPacket) IsAckEliciting() bool {
+	return len(p.StreamFrames) > 0 || ackhandler.HasAckElicitingFrames(p.Frames)
+}
 
 type coalescedPacket struct {
 	buffer         *packetBuffer
@@ -92,7 +95,10 @@ func (p *longHeaderPacket) EncryptionLevel() protocol.EncryptionLevel {
 	}
 }
 
-func (p *longHeaderPacket) IsAckEliciting() bool { return ackhandler.HasAckElicitingFrames(p.frames) }
+// IsAckEliciting reports whether the packet is ack-eliciting. STREAM frames (0-RTT) are kept in a list of their own.
+func (p *longHeaderPacket) IsAckEliciting() bool {
+	return len(p.streamFrames) > 0 || ackhandler.HasAckElicitingFrames(p.frames)
+}
 
 type packetNumberManager interface {
 	PeekPacketNumber(protocol.EncryptionLevel) (protocol.PacketNumber, protocol.PacketNumberLen)
